@@ -151,12 +151,26 @@ def first_diff(a, b):
     return "lengths {} vs {}".format(len(la), len(lb))
 
 
+def symbol_operand_programs():
+    """every kind of symbol (constant, label, data label; positive, negative, large) used *directly* as an operand of data
+    statements and of real operations: the listing must print it as a number the lexer reads back"""
+    head = "CONSTANT(N, 4)\nCONSTANT(NEG, -7)\nCONSTANT(BIG, 40000)\nCONSTANT(ONE, 1)\nCONSTANT(TOP, 65535)\n"
+    out = []
+    for data in ("INTEGER(N)\n", "INTEGER(NEG)\n", "INTEGER(BIG)\nINTEGER(TOP)\n", "DSKIP(N)\nDLABEL(d)\nINTEGER(ONE)\n", "DLABEL(d)\nDSKIP(ONE)\nINTEGER(N)\n"):
+        for code in ("SET(R1, N)\n", "SETLO(R1, N)\nSETHI(R1, ONE)\n", "INC(R1, N)\nDEC(R2, ONE)\n", "LOAD(R2, N, R1)\nSTORE(R2, ONE, R1)\n",
+                     "SET(R3, NEG)\nSET(R4, BIG)\nSET(R5, TOP)\n", "FON(N)\nFOFF(ONE)\nFSET5(N)\nFSET4(ONE)\n", "BRR(ONE)\nNOP()\n",
+                     "SETLO(R1, NEG)\n", "LABEL(l)\nSET(R1, l)\nBR(l)\n", "SET(R6, 'a')\nSETLO(R7, 'b')\n"):
+            out.append(head + data + code)
+    out.append(head + "DLABEL(d)\nINTEGER(N)\nSET(R1, d)\nSETLO(R2, N)\nLOAD(R3, N, R1)\n")
+    return out
+
+
 def check(seed, n):
     rng = random.Random(seed)
     violations, evals, dist, seen = [], 0, {"data": 0, "prog": 0}, set()
     d = asmrun.scratch_dir()
     try:
-        planned = asmrun.debug_runs()
+        planned = asmrun.debug_runs() + symbol_operand_programs()
         for k in range(n + len(planned)):
             if k < len(planned):
                 text, kind = planned[k], "prog"
